@@ -1,1036 +1,6 @@
-(* PerRun.v (C20) — per-run obligations about the REGENERATED functions
-   (Gen/C20_Schema.v, Gen/C20_Builders.v, rewritten from the sources of
-   sleap_nn/config/*.py and sleap_nn/train.py on every check run).  The
-   specifications in this file (option names, what "enabled" means, the
-   documented place of every builder parameter, the documented backbone presets
-   and sizes) are hand-written from the docstrings; the proofs are by
-   computation / case analysis on the generated terms, so a harmless rewrite of
-   the sources recomputes and a breaking one makes this file fail to compile.
-
-   Three clauses of the property are FALSE on the pinned tree (F12, F13, F16).
-   Each is stated as a pair `..._full : status_b = true -> <clause>` /
-   `..._refuted : status_b = false -> exists <witness>, <negation>` over a closed
-   boolean computed from the generated model, plus the strongest unconditional
-   statement `..._partial`; the harness evaluates the status booleans, reports
-   which member of each pair is the live one and cross-checks it against the
-   implementation.  After a repair of the sources the same file compiles and the
-   `_full` members become the live ones. *)
-From Coq Require Import List String Ascii ZArith QArith Bool Arith Lia Lqa.
-From SV Require Import C20.CfgTree C20.Lemmas Gen.C20_Schema Gen.C20_Builders C20.Eval.
-Import ListNotations.
-Close Scope Q_scope.
-Open Scope string_scope.
-
-(* ===================================================================== (c) *)
-(* augmentation lists *)
-
-Definition INTENSITY := ["uniform_noise"; "gaussian_noise"; "contrast"; "brightness"].
-Definition GEOMETRIC := ["rotation"; "scale"; "translate"; "erase_scale"; "mixup"].
-Definition AFFINE := ["rotation"; "scale"; "translate"].
-Definition ALL := (INTENSITY ++ GEOMETRIC)%list.
-
-Definition prob_pos (s : cfg) (p : list string) : bool :=
-  match get p s with
-  | Some v => match num_of v with Some q => qlt 0 q | None => false end
-  | None => false
-  end.
-Definition nonzero (s : cfg) (p : list string) : bool :=
-  match get p s with
-  | Some v => match num_of v with Some q => negb (Qeq_bool q 0) | None => false end
-  | None => false
-  end.
-Definition not_all_one (s : cfg) (p : list string) : bool :=
-  match get p s with
-  | Some (VTup l) | Some (VList l) =>
-      existsb (fun x => match num_of x with Some q => negb (Qeq_bool q 1) | None => true end) l
-  | _ => false
-  end.
-
-(* an intensity option is enabled iff its probability is positive *)
-Definition int_enabled (n : string) (s : cfg) : bool := prob_pos s ["intensity"; n ++ "_p"].
-(* a geometric option is enabled iff the transform it names is applied with
-   positive probability and is not the identity ("set rotation to 0 to disable
-   rotation", scale (1,1), translate 0) *)
-Definition geo_enabled (n : string) (s : cfg) : bool :=
-  let g := fun k => ["geometric"; k] in
-  if n =? "rotation" then prob_pos s (g "affine_p") &&& nonzero s (g "rotation")
-  else if n =? "scale" then prob_pos s (g "affine_p") &&& not_all_one s (g "scale")
-  else if n =? "translate" then
-    prob_pos s (g "affine_p") &&& (nonzero s (g "translate_width") || nonzero s (g "translate_height"))
-  else if n =? "erase_scale" then prob_pos s (g "erase_p")
-  else if n =? "mixup" then prob_pos s (g "mixup_p")
-  else false.
-
-Definition aug_init : cfg := default_obj cls_AugmentationConfig.
-
-(* options that no preset is documented to change keep their schema default *)
-Definition UNTOUCHED : list (list string) :=
-  (map (fun k => ["intensity"; k])
-      ["uniform_noise_min"; "uniform_noise_max"; "gaussian_noise_mean"; "gaussian_noise_std";
-       "contrast_min"; "contrast_max"; "brightness"] ++
-   map (fun k => ["geometric"; k])
-      ["erase_scale_min"; "erase_scale_max"; "erase_ratio_min"; "erase_ratio_max"; "mixup_lambda"])%list.
-Definition untouched (s : cfg) : bool :=
-  forallb (fun p => match get p s, get p aug_init with
-                    | Some a, Some b => cfg_eqb a b
-                    | _, _ => false
-                    end) UNTOUCHED.
-
-Definition aug_args (ia ga : cfg) : string -> cfg :=
-  env_of [("intensity_aug", ia); ("geometric_aug", ga)] get_aug_config_defaults.
-Definition names_arg (l : list string) : cfg := VList (map VStr l).
-
-(* The body of the geometric loop as a function of (the list being iterated, the
-   state, the current name).  The repaired source reads the list inside the loop
-   ("switch off only the affine parameters that are not named anywhere in the
-   list"), so the translator lambda-lifts it with the list as an extra argument;
-   the pinned source does not read it.  Both shapes are accepted here. *)
-Definition geo_body : cfg -> cfg -> cfg -> res cfg :=
-  ltac:(let t := type of get_aug_config__for_geometric_aug in
-        lazymatch t with
-        | cfg -> cfg -> cfg -> res cfg => exact get_aug_config__for_geometric_aug
-        | cfg -> cfg -> res cfg => exact (fun _ : cfg => get_aug_config__for_geometric_aug)
-        end).
-
-(* one loop iteration, for the geometric list P *)
-Definition int_step (s : cfg) (n : string) := get_aug_config__for_intensity_aug s (VStr n).
-Definition geo_step (P : list string) (s : cfg) (n : string) := geo_body (names_arg P) s (VStr n).
-Definition aug_step (P : list string) (s : cfg) (n : string) : res cfg :=
-  if mem_str n INTENSITY then int_step s n else geo_step P s n.
-Definition aug_enabled (n : string) (s : cfg) : bool :=
-  if mem_str n INTENSITY then int_enabled n s else geo_enabled n s.
-Definition aug_inv (s : cfg) (seen : list string) : bool :=
-  forallb (fun n => aug_enabled n s) seen &&& untouched s.
-
-(* selector of F12: the geometric list names two different affine presets *)
-Definition selector_F12 (gl : list string) : bool :=
-  Nat.leb 2 (List.length (canon AFFINE gl)).
-
-(* The loop body depends on the list only through the affine names it contains
-   (geo_body_param below), so a run on the list gl is a run of the machine
-   `aug_step P` with P = canon AFFINE gl, one of the 8 sublists of AFFINE, on
-   names whose affine part lies inside P. *)
-Definition AFFINE_SETS : list (list string) :=
-  [[]; ["rotation"]; ["scale"]; ["translate"]; ["rotation"; "scale"]; ["rotation"; "translate"];
-   ["scale"; "translate"]; ["rotation"; "scale"; "translate"]].
-Definition AFFINE_SMALL : list (list string) := filter (fun P => Nat.leb (List.length P) 1) AFFINE_SETS.
-
-Definition allowed_for (P seen : list string) : bool :=
-  forallb (fun a => mem_str a P) (canon AFFINE seen).
-
-Definition aug_R (P : list string) : list st :=
-  explore (aug_step P) ALL (allowed_for P) (200 * 200) [] [(aug_init, [])].
-
-(* status of clause (c): the unbounded check (finite reachability, sound for all
-   lists) and the bounded exhaustive one (all ordered lists of distinct
-   geometric names up to length 4) *)
-Definition aug_check (P : list string) (R : list st) : bool :=
-  closed (aug_step P) ALL aug_inv (allowed_for P) R &&& st_mem (aug_init, []) R.
-Definition aug_geo_full_b : bool := forallb (fun P => aug_check P (aug_R P)) AFFINE_SETS.
-
-Definition aug_ok_b (il gl : list string) : bool :=
-  match get_aug_config (aug_args (names_arg il) (names_arg gl)) with
-  | Ok s => forallb (fun n => int_enabled n s) il &&& forallb (fun n => geo_enabled n s) gl
-  | Err _ => false
-  end.
-Definition aug_geo_exhaustive4_b : bool := forallb (aug_ok_b []) (ordered_lists 4 GEOMETRIC).
-Definition aug_geo_cex : list string :=
-  match find (fun l => negb (aug_ok_b [] l)) (ordered_lists 4 GEOMETRIC) with Some l => l | None => [] end.
-
-Lemma aug_unfold_gen : forall xs ys : list cfg,
-  get_aug_config (aug_args (VList xs) (VList ys)) =
-  bind (fold_res get_aug_config__for_intensity_aug xs aug_init)
-       (fun s1 => fold_res (geo_body (VList ys)) ys s1).
-Proof.
-  intros xs ys.
-  cbv -[fold_res get_aug_config__for_intensity_aug get_aug_config__for_geometric_aug].
-  destruct (fold_res get_aug_config__for_intensity_aug xs _) as [s1|e]; [|reflexivity].
-  destruct (fold_res _ ys s1) as [s2|e]; reflexivity.
-Qed.
-Print Assumptions aug_unfold_gen.
-
-Lemma aug_unfold : forall il gl,
-  get_aug_config (aug_args (names_arg il) (names_arg gl)) =
-  bind (fold_res get_aug_config__for_intensity_aug (map VStr il) aug_init)
-       (fun s1 => fold_res (geo_body (names_arg gl)) (map VStr gl) s1).
-Proof. intros. apply aug_unfold_gen. Qed.
-Print Assumptions aug_unfold.
-
-Lemma contains_names : forall a l, existsb (cfg_eqb (VStr a)) (map VStr l) = mem_str a l.
-Proof. intros a l. unfold mem_str. induction l as [|x r IH]; cbn [existsb map]; [reflexivity|]. rewrite IH. reflexivity. Qed.
-Print Assumptions contains_names.
-
-(* the loop body reads the list only through `"rotation" / "scale" / "translate" in list` *)
-Lemma geo_body_param : forall gl s n,
-  geo_body (names_arg gl) s n = geo_body (names_arg (canon AFFINE gl)) s n.
-Proof.
-  intros gl s n. unfold geo_body.
-  first
-    [ reflexivity
-    | assert (forall a, In a AFFINE ->
-                existsb (cfg_eqb (VStr a)) (map VStr (canon AFFINE gl)) = existsb (cfg_eqb (VStr a)) (map VStr gl)) as H
-        by (intros a Ia; rewrite !contains_names; apply mem_canon; exact Ia);
-      pose proof (H "rotation" (or_introl eq_refl)) as H1;
-      pose proof (H "scale" (or_intror (or_introl eq_refl))) as H2;
-      pose proof (H "translate" (or_intror (or_intror (or_introl eq_refl)))) as H3;
-      clear H;
-      unfold get_aug_config__for_geometric_aug, names_arg; cbn [py_contains];
-      set (x1 := existsb (cfg_eqb (VStr "rotation")) (map VStr (canon AFFINE gl))) in *;
-      set (x2 := existsb (cfg_eqb (VStr "scale")) (map VStr (canon AFFINE gl))) in *;
-      set (x3 := existsb (cfg_eqb (VStr "translate")) (map VStr (canon AFFINE gl))) in *;
-      clearbody x1 x2 x3; subst x1 x2 x3; reflexivity ].
-Qed.
-Print Assumptions geo_body_param.
-
-Lemma fold_res_ext_in : forall {S A} (f g : S -> A -> res S) l s,
-  (forall s x, In x l -> f s x = g s x) -> fold_res f l s = fold_res g l s.
-Proof.
-  induction l as [|x r IH]; intros s H; simpl; [reflexivity|].
-  rewrite (H s x (or_introl eq_refl)). destruct (g s x); simpl; [|reflexivity].
-  apply IH. intros s0 x0 I. apply H. right. exact I.
-Qed.
-Print Assumptions fold_res_ext_in.
-
-Lemma aug_fold : forall il gl,
-  Forall (fun n => In n INTENSITY) il -> Forall (fun n => In n GEOMETRIC) gl ->
-  get_aug_config (aug_args (names_arg il) (names_arg gl)) =
-  fold_names (aug_step (canon AFFINE gl)) (il ++ gl)%list aug_init.
-Proof.
-  intros il gl Hi Hg. rewrite aug_unfold. unfold fold_names. rewrite fold_res_app, !fold_res_map.
-  rewrite (fold_res_ext_in (fun s x => get_aug_config__for_intensity_aug s (VStr x)) (aug_step (canon AFFINE gl)) il).
-  - destruct (fold_res (aug_step (canon AFFINE gl)) il aug_init); simpl; [|reflexivity].
-    rewrite fold_res_map. apply fold_res_ext_in. intros s x I. rewrite Forall_forall in Hg. specialize (Hg x I).
-    rewrite geo_body_param.
-    unfold aug_step, geo_step. simpl in Hg.
-    repeat (destruct Hg as [Hg|Hg]; [subst; reflexivity|]). contradiction.
-  - intros s x I. rewrite Forall_forall in Hi. specialize (Hi x I).
-    unfold aug_step. simpl in Hi.
-    repeat (destruct Hi as [Hi|Hi]; [subst; reflexivity|]). contradiction.
-Qed.
-Print Assumptions aug_fold.
-
-Lemma allowed_for_antitone : forall P A n,
-  allowed_for P (canon ALL (n :: A)) = true -> allowed_for P (canon ALL A) = true.
-Proof.
-  unfold allowed_for. intros P A n H. rewrite forallb_forall in *. intros a Ia. apply H.
-  apply canon_In in Ia. destruct Ia as [I1 I2]. apply canon_In in I2. destruct I2 as [I2 I3].
-  apply canon_In. split; [exact I1|]. apply canon_In. split; [exact I2 | right; exact I3].
-Qed.
-Print Assumptions allowed_for_antitone.
-
-(* the names of il ++ gl lie inside the machine of gl's affine set *)
-Lemma allowed_for_own : forall il gl, Forall (fun n => In n INTENSITY) il ->
-  allowed_for (canon AFFINE gl) (canon ALL (il ++ gl)%list) = true.
-Proof.
-  intros il gl Hi. unfold allowed_for. apply forallb_forall. intros a Ia.
-  apply canon_In in Ia. destruct Ia as [I1 I2]. apply canon_In in I2. destruct I2 as [_ I3].
-  apply mem_str_In. apply canon_In. split; [exact I1|].
-  apply in_app_or in I3. destruct I3 as [I3|I3]; [|exact I3]. exfalso.
-  rewrite Forall_forall in Hi. specialize (Hi a I3). simpl in I1, Hi.
-  repeat (destruct I1 as [I1|I1]; [subst; repeat (destruct Hi as [Hi|Hi]; [discriminate Hi|]); contradiction|]).
-  contradiction.
-Qed.
-Print Assumptions allowed_for_own.
-
-Lemma canon_affine_cases : forall gl, In (canon AFFINE gl) AFFINE_SETS.
-Proof.
-  intro gl. unfold canon, AFFINE. cbn [filter].
-  destruct (mem_str "rotation" gl), (mem_str "scale" gl), (mem_str "translate" gl); simpl; tauto.
-Qed.
-Print Assumptions canon_affine_cases.
-
-Lemma aug_from_reach : forall P R, aug_check P R = true ->
-  forall il gl, canon AFFINE gl = P ->
-  Forall (fun n => In n INTENSITY) il -> Forall (fun n => In n GEOMETRIC) gl ->
-  exists s, get_aug_config (aug_args (names_arg il) (names_arg gl)) = Ok s /\
-            (forall n, In n il -> int_enabled n s = true) /\
-            (forall n, In n gl -> geo_enabled n s = true) /\
-            untouched s = true.
-Proof.
-  intros P R C il gl EP Hi Hg. unfold aug_check in C. apply andl_true in C. destruct C as [C I0].
-  assert (Forall (fun n => In n ALL) (il ++ gl)%list) as F.
-  { apply Forall_app. split; eapply Forall_impl; try eassumption; intros a Ha; unfold ALL; apply in_or_app; tauto. }
-  assert (allowed_for P (canon ALL (il ++ gl)%list) = true) as Al by (rewrite <- EP; apply allowed_for_own; exact Hi).
-  destruct (reach_sound (aug_step P) ALL aug_inv (allowed_for P) R aug_init C I0 (allowed_for_antitone P)
-                        (il ++ gl)%list F Al) as [s [Fs Is]].
-  rewrite <- EP in Fs.
-  exists s. rewrite aug_fold by assumption. split; [exact Fs|].
-  unfold aug_inv in Is. apply andl_true in Is. destruct Is as [En Un]. rewrite forallb_forall in En.
-  repeat split; [| |exact Un].
-  - intros n I. assert (In n (canon ALL (il ++ gl)%list)) as Hc.
-    { apply canon_In. split; [|apply in_or_app; tauto].
-      rewrite Forall_forall in Hi. specialize (Hi n I). unfold ALL. apply in_or_app. tauto. }
-    specialize (En n Hc). unfold aug_enabled in En.
-    rewrite Forall_forall in Hi. specialize (Hi n I). apply mem_str_In in Hi. rewrite Hi in En. exact En.
-  - intros n I. assert (In n (canon ALL (il ++ gl)%list)) as Hc.
-    { apply canon_In. split; [|apply in_or_app; tauto].
-      rewrite Forall_forall in Hg. specialize (Hg n I). unfold ALL. apply in_or_app. tauto. }
-    specialize (En n Hc). unfold aug_enabled in En.
-    rewrite Forall_forall in Hg. specialize (Hg n I). simpl in Hg.
-    repeat (destruct Hg as [Hg|Hg]; [subst; exact En|]). contradiction.
-Qed.
-Print Assumptions aug_from_reach.
-
-(* (c), strongest unconditional statement: for ALL lists (any length, any order,
-   repetitions allowed) of documented names in which the geometric list does
-   not name two different affine presets, get_aug_config succeeds, every named
-   option is enabled, and the untouched options keep their defaults. *)
-Theorem aug_lists_partial : forall il gl,
-  Forall (fun n => In n INTENSITY) il -> Forall (fun n => In n GEOMETRIC) gl ->
-  selector_F12 gl = false ->
-  exists s, get_aug_config (aug_args (names_arg il) (names_arg gl)) = Ok s /\
-            (forall n, In n il -> int_enabled n s = true) /\
-            (forall n, In n gl -> geo_enabled n s = true) /\
-            untouched s = true.
-Proof.
-  intros il gl Hi Hg Sel.
-  assert (forallb (fun P => aug_check P (aug_R P)) AFFINE_SMALL = true) as B by (vm_compute; reflexivity).
-  rewrite forallb_forall in B.
-  assert (In (canon AFFINE gl) AFFINE_SMALL) as I.
-  { unfold AFFINE_SMALL. apply filter_In. split; [apply canon_affine_cases|].
-    unfold selector_F12 in Sel. apply Nat.leb_gt in Sel. apply Nat.leb_le. lia. }
-  exact (aug_from_reach _ _ (B _ I) il gl eq_refl Hi Hg).
-Qed.
-Print Assumptions aug_lists_partial.
-
-(* (c), the full clause — live after a repair of F12 *)
-Theorem aug_lists_full : forallb (fun P => aug_check P (aug_R P)) AFFINE_SETS = true ->   (* = aug_geo_full_b *)
-  forall il gl,
-  Forall (fun n => In n INTENSITY) il -> Forall (fun n => In n GEOMETRIC) gl ->
-  exists s, get_aug_config (aug_args (names_arg il) (names_arg gl)) = Ok s /\
-            (forall n, In n il -> int_enabled n s = true) /\
-            (forall n, In n gl -> geo_enabled n s = true) /\
-            untouched s = true.
-Proof.
-  intros B il gl Hi Hg.
-  rewrite forallb_forall in B.
-  exact (aug_from_reach _ _ (B _ (canon_affine_cases gl)) il gl eq_refl Hi Hg).
-Qed.
-Print Assumptions aug_lists_full.
-
-Lemma aug_ok_b_false : forall gl, Forall (fun n => In n GEOMETRIC) gl -> aug_ok_b [] gl = false ->
-  ~ (exists s, get_aug_config (aug_args (names_arg []) (names_arg gl)) = Ok s /\
-               forall n, In n gl -> geo_enabled n s = true).
-Proof.
-  intros gl Hg B [s [E H]]. unfold aug_ok_b in B. rewrite E in B. simpl in B.
-  assert (forallb (fun n => geo_enabled n s) gl = true) as T by (apply forallb_forall; exact H).
-  rewrite T in B. discriminate.
-Qed.
-Print Assumptions aug_ok_b_false.
-
-(* (c), refutation — live on the pinned tree (F12): a list of documented
-   geometric names, found by the exhaustive search over ordered lists of
-   distinct names up to length 4 on the GENERATED function, for which some named
-   option is not enabled *)
-Lemma all_geometric : forall l, forallb (fun n => mem_str n GEOMETRIC) l = true ->
-  Forall (fun n => In n GEOMETRIC) l.
-Proof.
-  intros l F. apply Forall_forall. intros n I. apply mem_str_In.
-  rewrite forallb_forall in F. apply F. exact I.
-Qed.
-Print Assumptions all_geometric.
-
-Theorem aug_lists_refuted : aug_geo_exhaustive4_b = false ->
-  exists gl, Forall (fun n => In n GEOMETRIC) gl /\ selector_F12 gl = true /\
-    ~ (exists s, get_aug_config (aug_args (names_arg []) (names_arg gl)) = Ok s /\
-                 forall n, In n gl -> geo_enabled n s = true).
-Proof.
-  intro B.
-  first
-    [ exfalso; vm_compute in B; discriminate B
-    | exists aug_geo_cex; split; [| split];
-      [ apply all_geometric; vm_compute; reflexivity
-      | vm_compute; reflexivity
-      | apply aug_ok_b_false; [ apply all_geometric; vm_compute; reflexivity | vm_compute; reflexivity ] ] ].
-Qed.
-Print Assumptions aug_lists_refuted.
-
-(* a single name given as a string is the singleton list *)
-Theorem aug_string_is_singleton : forall n m,
-  get_aug_config (aug_args (VStr n) (VStr m)) = get_aug_config (aug_args (names_arg [n]) (names_arg [m])).
-Proof. intros. reflexivity. Qed.
-Print Assumptions aug_string_is_singleton.
-
-(* ================================================================= (a), (b) *)
-(* pass-through and defaults of the three top-level builders *)
-
-Lemma bind_assoc : forall {A B C} (m : res A) (g : A -> res B) (f : B -> res C),
-  bind (bind m g) f = bind m (fun x => bind (g x) f).
-Proof. intros A B C [a|e] g f; reflexivity. Qed.
-Print Assumptions bind_assoc.
-
-Lemma mk_kw_shape : forall c kw x, mk_kw c kw [] = Ok x -> x = VObj (c_name c) (fill c kw).
-Proof. unfold mk_kw. simpl. intros c kw x H. apply mk_ok_shape in H. tauto. Qed.
-Print Assumptions mk_kw_shape.
-
-(* one step of symbolic execution of a generated builder under `H : body = Ok r`:
-   constructor calls are replaced by the instance they return (mk_ok_shape: the
-   declared fields, each holding the keyword argument or the declared default),
-   anything else that may raise (sub-builders, interpreted arguments) by an
-   unknown value *)
-Ltac step H :=
-  lazymatch type of H with
-  | bind (bind _ _) _ = Ok _ => rewrite bind_assoc in H
-  | bind (mk_kw ?c ?kw []) _ = Ok _ =>
-      let x := fresh "o" in let E := fresh "E" in
-      destruct (mk_kw c kw []) as [x|] eqn:E;
-      [ apply mk_kw_shape in E; subst x; cbn [bind] in H | discriminate H ]
-  | bind ?m _ = Ok _ =>
-      let x := fresh "x" in
-      destruct m as [x|];
-      [ lazymatch type of x with
-        | (_ * _)%type => destruct x
-        | _ => idtac
-        end; cbn [bind] in H
-      | discriminate H ]
-  | mk_kw ?c ?kw [] = Ok ?r => apply mk_kw_shape in H; subst r
-  | Ok _ = Ok _ => inversion H; subst; clear H
-  end.
-
-(* every parameter p documented to land at path: the result holds the caller's
-   value there, unmodified, for ALL argument values *)
-Definition passes (b : (string -> cfg) -> res cfg) (tbl : list (string * list string)) : Prop :=
-  forall a r, b a = Ok r -> forall p path, In (p, path) tbl -> get path r = Some (a p).
-
-Fixpoint leaf_paths (c : cfg) : list (list string) :=
-  match c with
-  | VObj _ kv =>
-      (fix go (kv : list (string * cfg)) : list (list string) :=
-         match kv with
-         | [] => []
-         | (k, v) :: r => (map (cons k) (leaf_paths v) ++ go r)%list
-         end) kv
-  | _ => [[]]
-  end.
-
-Fixpoint is_prefix (p q : list string) : bool :=
-  match p, q with
-  | [], _ => true
-  | x :: p', y :: q' => String.eqb x y &&& is_prefix p' q'
-  | _, _ => false
-  end.
-
-(* the options of class c that no parameter feeds *)
-Definition unfed (fed : list (list string)) (c : class_def) : list (list string) :=
-  filter (fun p => negb (existsb (fun f => is_prefix f p || is_prefix p f) fed)) (leaf_paths (default_obj c)).
-
-(* every option not fed by a parameter holds the schema default, and the result
-   is a complete instance of the class *)
-Definition holds_defaults (b : (string -> cfg) -> res cfg) (c : class_def) (fed : list (list string)) : Prop :=
-  forall a r, b a = Ok r ->
-    (exists kv, r = VObj (c_name c) kv /\ map fst kv = field_names c) /\
-    forall p, In p (unfed fed c) -> get p r = get p (default_obj c).
-
-Definition same (l : list string) : list (string * list string) := map (fun p => (p, [p])) l.
-Definition under (k : string) (l : list (string * string)) : list (string * list string) :=
-  map (fun e => (fst e, [k; snd e])) l.
-
-Definition DATA_PATHS : list (string * list string) :=
-  (same ["train_labels_path"; "val_labels_path"; "test_file_path"; "provider"; "user_instances_only";
-         "data_pipeline_fw"; "np_chunks_path"; "litdata_chunks_path"; "use_existing_chunks"; "chunk_size";
-         "delete_chunks_after_training"; "use_augmentations_train"] ++
-   under "preprocessing" [("is_rgb", "is_rgb"); ("scale", "scale"); ("max_height", "max_height");
-                          ("max_width", "max_width"); ("crop_hw", "crop_hw"); ("min_crop_size", "min_crop_size")])%list.
-Definition DATA_PROCESSED : list (string * list string) :=
-  [("intensity_aug", ["augmentation_config"]); ("geometry_aug", ["augmentation_config"])].
-
-Definition MODEL_PATHS : list (string * list string) :=
-  [("init_weight", ["init_weights"]); ("pre_trained_weights", ["pre_trained_weights"]);
-   ("pretrained_backbone_weights", ["pretrained_backbone_weights"]);
-   ("pretrained_head_weights", ["pretrained_head_weights"])].
-Definition MODEL_PROCESSED : list (string * list string) :=
-  [("backbone_config", ["backbone_config"]); ("head_configs", ["head_configs"])].
-
-Definition TRAINER_PATHS : list (string * list string) :=
-  ([("batch_size", ["train_data_loader"; "batch_size"]); ("batch_size", ["val_data_loader"; "batch_size"]);
-    ("shuffle_train", ["train_data_loader"; "shuffle"]);
-    ("num_workers", ["train_data_loader"; "num_workers"]); ("num_workers", ["val_data_loader"; "num_workers"]);
-    ("ckpt_save_top_k", ["model_ckpt"; "save_top_k"]); ("ckpt_save_last", ["model_ckpt"; "save_last"]);
-    ("trainer_num_devices", ["trainer_devices"]); ("optimizer", ["optimizer_name"]);
-    ("learning_rate", ["optimizer"; "lr"]); ("amsgrad", ["optimizer"; "amsgrad"]);
-    ("early_stopping", ["early_stopping"; "stop_training_on_plateau"]);
-    ("early_stopping_min_delta", ["early_stopping"; "min_delta"]);
-    ("early_stopping_patience", ["early_stopping"; "patience"])] ++
-   same ["trainer_accelerator"; "enable_progress_bar"; "steps_per_epoch"; "max_epochs"; "seed"; "use_wandb";
-         "save_ckpt"; "save_ckpt_path"; "resume_ckpt_path"] ++
-   under "wandb" [("wandb_entity", "entity"); ("wandb_project", "project"); ("wandb_name", "name");
-                  ("wandb_api_key", "api_key"); ("wandb_mode", "wandb_mode");
-                  ("wandb_resume_prv_runid", "prv_runid"); ("wandb_group_name", "group")])%list.
-Definition TRAINER_PROCESSED : list (string * list string) := [("lr_scheduler", ["lr_scheduler"])].
-
-(* every parameter of the (regenerated) signature has a documented place *)
-Definition params_tabled (params : list string) (tbl proc : list (string * list string)) : bool :=
-  forallb (fun p => mem_str p (map fst tbl) || mem_str p (map fst proc)) params &&&
-  forallb (fun p => mem_str p params) (map fst tbl ++ map fst proc)%list.
-
-Theorem params_all_tabled :
-  params_tabled get_data_config_params DATA_PATHS DATA_PROCESSED &&&
-  params_tabled get_model_config_params MODEL_PATHS MODEL_PROCESSED &&&
-  params_tabled get_trainer_config_params TRAINER_PATHS TRAINER_PROCESSED = true.
-Proof. vm_compute. reflexivity. Qed.
-Print Assumptions params_all_tabled.
-
-Ltac all_paths I :=
-  repeat (destruct I as [I|I]; [injection I as <- <-; reflexivity|]); contradiction.
-
-Theorem data_pass_through : passes get_data_config DATA_PATHS.
-Proof.
-  intros a r H. unfold get_data_config in H. cbv zeta in H. repeat step H.
-  intros p path I. cbv [DATA_PATHS same under map app fst snd] in I. all_paths I.
-Qed.
-Print Assumptions data_pass_through.
-
-Theorem model_pass_through : passes get_model_config MODEL_PATHS.
-Proof.
-  intros a r H. unfold get_model_config in H. cbv zeta in H. repeat step H.
-  intros p path I. cbv [MODEL_PATHS] in I. all_paths I.
-Qed.
-Print Assumptions model_pass_through.
-
-Theorem trainer_pass_through : passes get_trainer_config TRAINER_PATHS.
-Proof.
-  intros a r H. unfold get_trainer_config in H. cbv zeta in H. repeat step H.
-  intros p path I. cbv [TRAINER_PATHS same under map app fst snd] in I. all_paths I.
-Qed.
-Print Assumptions trainer_pass_through.
-
-Ltac all_defaults I :=
-  vm_compute in I; repeat (destruct I as [I|I]; [subst; reflexivity|]); contradiction.
-
-Ltac complete_instance :=
-  eexists; split; [reflexivity | rewrite fill_keys; reflexivity].
-
-Theorem data_defaults :
-  holds_defaults get_data_config cls_DataConfig (map snd DATA_PATHS ++ map snd DATA_PROCESSED).
-Proof.
-  intros a r H. unfold get_data_config in H. cbv zeta in H. repeat step H.
-  split; [complete_instance | intros p I; all_defaults I].
-Qed.
-Print Assumptions data_defaults.
-
-Theorem model_defaults :
-  holds_defaults get_model_config cls_ModelConfig (map snd MODEL_PATHS ++ map snd MODEL_PROCESSED).
-Proof.
-  intros a r H. unfold get_model_config in H. cbv zeta in H. repeat step H.
-  split; [complete_instance | intros p I; all_defaults I].
-Qed.
-Print Assumptions model_defaults.
-
-Theorem trainer_defaults :
-  holds_defaults get_trainer_config cls_TrainerConfig (map snd TRAINER_PATHS ++ map snd TRAINER_PROCESSED).
-Proof.
-  intros a r H. unfold get_trainer_config in H. cbv zeta in H. repeat step H.
-  split; [complete_instance | intros p I; all_defaults I].
-Qed.
-Print Assumptions trainer_defaults.
-
-(* the statement about defaults is not vacuous: there are unfed options in every section
-   (membership, not equality: a new schema field that no builder argument feeds simply joins
-   the list and is covered by the *_defaults theorems above) *)
-Example ex_unfed_options :
-  In ["profiler"] (unfed (map snd TRAINER_PATHS ++ map snd TRAINER_PROCESSED) cls_TrainerConfig) /\
-  In ["skeletons"] (unfed (map snd DATA_PATHS ++ map snd DATA_PROCESSED) cls_DataConfig) /\
-  In ["total_params"] (unfed (map snd MODEL_PATHS ++ map snd MODEL_PROCESSED) cls_ModelConfig).
-Proof. vm_compute. repeat split; tauto. Qed.
-
-(* =================================================== interpreted parameters *)
-(* backbone_config, head_configs, lr_scheduler: option names and dicts *)
-
-(* symbolic execution of a generated builder with evaluation (vm_compute) of
-   everything concrete; constructor calls on caller-supplied keyword dicts are
-   kept as hypotheses `mk cls kw = Ok o` *)
-Ltac eval_ok H m :=
-  let v := eval vm_compute in m in
-  lazymatch v with
-  | Ok _ => replace m with v in H by (vm_compute; reflexivity)
-  end.
-
-Ltac xstep H :=
-  lazymatch type of H with
-  | bind (bind _ _) _ = Ok _ => rewrite bind_assoc in H
-  | bind (mk_kw ?c ?kw [VDict ?d]) _ = Ok _ =>
-      change (mk_kw c kw [VDict d]) with (mk c (kw ++ d)%list) in H; cbn [app] in H
-  | bind (mk ?c ?kw) _ = Ok _ =>
-      let x := fresh "o" in let E := fresh "E" in
-      destruct (mk c kw) as [x|] eqn:E; [cbn [bind] in H | discriminate H]
-  | bind (mk_kw ?c ?kw []) _ = Ok _ =>
-      first [ eval_ok H (mk_kw c kw []); cbn [bind] in H
-            | change (mk_kw c kw []) with (mk c kw) in H ]
-  | bind (if ?c then ?A else ?B) _ = Ok _ =>
-      let cv := eval vm_compute in c in
-      lazymatch cv with
-      | true => change (if c then A else B) with A in H
-      | false => change (if c then A else B) with B in H
-      end
-  | (if ?c then ?A else ?B) = Ok _ =>
-      let cv := eval vm_compute in c in
-      lazymatch cv with
-      | true => change (if c then A else B) with A in H
-      | false => change (if c then A else B) with B in H
-      end
-  | bind (py_for_items (VDict _) _ _) _ = Ok _ => cbn [py_for_items fold_break] in H
-  | bind ?m _ = Ok _ => eval_ok H m; cbn [bind] in H
-  | Ok _ = Ok _ => inversion H; subst; clear H
-  | ?m = Ok _ => eval_ok H m
-  end.
-
-Definition FAMILIES := ["unet"; "convnext"; "swint"].
-Definition PRESETS : list (string * (string * string)) :=
-  [("unet", ("unet", "UNetConfig")); ("unet_medium_rf", ("unet", "UNetMediumRFConfig"));
-   ("unet_large_rf", ("unet", "UNetLargeRFConfig"));
-   ("convnext", ("convnext", "ConvNextConfig")); ("convnext_tiny", ("convnext", "ConvNextConfig"));
-   ("convnext_small", ("convnext", "ConvNextSmallConfig")); ("convnext_base", ("convnext", "ConvNextBaseConfig"));
-   ("convnext_large", ("convnext", "ConvNextLargeConfig"));
-   ("swint", ("swint", "SwinTConfig")); ("swint_tiny", ("swint", "SwinTConfig"));
-   ("swint_small", ("swint", "SwinTSmallConfig")); ("swint_base", ("swint", "SwinTBaseConfig"))].
-Definition HEADS : list (string * string) :=
-  [("single_instance", "SingleInstanceConfig"); ("centroid", "CentroidConfig");
-   ("centered_instance", "CenteredInstanceConfig"); ("bottomup", "BottomUpConfig")].
-Definition SCHEDULERS : list (string * string) :=
-  [("step_lr", "StepLRConfig"); ("reduce_lr_on_plateau", "ReduceLROnPlateauConfig")].
-
-Definition bb_arg (v : cfg) : string -> cfg := env_of [("backbone_cfg", v)] get_backbone_config_defaults.
-Definition head_arg (v : cfg) : string -> cfg := env_of [("head_cfg", v)] get_head_configs_defaults.
-Definition trainer_arg (v : cfg) : string -> cfg := env_of [("lr_scheduler", v)] get_trainer_config_defaults.
-
-(* of the members, exactly m is set, and it holds `want` *)
-Definition only_member (members : list string) (m : string) (want r : cfg) : bool :=
-  forallb (fun f => match get [f] r with
-                    | Some v => if f =? m then cfg_eqb v want else is_none v
-                    | None => false
-                    end) members.
-
-Definition preset_ok (e : string * (string * string)) : bool :=
-  match get_backbone_config (bb_arg (VStr (fst e))), find_class classes (snd (snd e)) with
-  | Ok r, Some c => only_member FAMILIES (fst (snd e)) (default_obj c) r
-  | _, _ => false
-  end.
-Definition head_ok (e : string * string) : bool :=
-  match get_head_configs (head_arg (VStr (fst e))), find_class classes (snd e) with
-  | Ok r, Some c => only_member (map fst HEADS) (fst e) (default_obj c) r
-  | _, _ => false
-  end.
-Definition sched_ok (e : string * string) : bool :=
-  match get_trainer_config (trainer_arg (VStr (fst e))), find_class classes (snd e) with
-  | Ok r, Some c => match get ["lr_scheduler"] r with
-                    | Some l => only_member (map fst SCHEDULERS) (fst e) (default_obj c) l
-                    | None => false
-                    end
-  | _, _ => false
-  end.
-
-(* every documented option name selects its member, holding exactly the schema
-   defaults of the documented class, and nothing else.  Finite domains: the 12
-   backbone presets, the 4 head types, the 2 schedulers. *)
-Theorem option_names_select_documented_defaults :
-  forallb preset_ok PRESETS &&& forallb head_ok HEADS &&& forallb sched_ok SCHEDULERS = true.
-Proof. vm_compute. reflexivity. Qed.
-Print Assumptions option_names_select_documented_defaults.
-
-(* a dict {member: kwargs} is the member's constructor applied to the caller's
-   kwargs, for ALL kwargs; by mk_reflects_kwargs / mk_defaults_elsewhere every
-   supplied option lands unmodified, every other one holds the schema default *)
-Theorem backbone_dict : forall kw r,
-  (get_backbone_config (bb_arg (VDict [("unet", VDict kw)])) = Ok r ->
-   exists u, mk cls_UNetConfig kw = Ok u /\
-             r = VObj "BackboneConfig" [("unet", u); ("convnext", VNone); ("swint", VNone)]) /\
-  (get_backbone_config (bb_arg (VDict [("convnext", VDict kw)])) = Ok r ->
-   exists u, mk cls_ConvNextConfig kw = Ok u /\
-             r = VObj "BackboneConfig" [("unet", VNone); ("convnext", u); ("swint", VNone)]) /\
-  (get_backbone_config (bb_arg (VDict [("swint", VDict kw)])) = Ok r ->
-   exists u, mk cls_SwinTConfig kw = Ok u /\
-             r = VObj "BackboneConfig" [("unet", VNone); ("convnext", VNone); ("swint", u)]).
-Proof.
-  intros kw r. split; [|split]; intro H; unfold get_backbone_config in H; cbv zeta in H;
-    repeat xstep H; eexists; split; try eassumption; reflexivity.
-Qed.
-Print Assumptions backbone_dict.
-
-Theorem head_dict : forall kw kw2 r,
-  (get_head_configs (head_arg (VDict [("single_instance", VDict [("confmaps", VDict kw)])])) = Ok r ->
-   exists cm, mk cls_SingleInstanceConfMapsConfig kw = Ok cm /\
-     r = VObj "HeadConfig" [("single_instance", VObj "SingleInstanceConfig" [("confmaps", cm)]);
-                            ("centroid", VNone); ("centered_instance", VNone); ("bottomup", VNone)]) /\
-  (get_head_configs (head_arg (VDict [("centroid", VDict [("confmaps", VDict kw)])])) = Ok r ->
-   exists cm, mk cls_CentroidConfMapsConfig kw = Ok cm /\
-     r = VObj "HeadConfig" [("single_instance", VNone); ("centroid", VObj "CentroidConfig" [("confmaps", cm)]);
-                            ("centered_instance", VNone); ("bottomup", VNone)]) /\
-  (get_head_configs (head_arg (VDict [("centered_instance", VDict [("confmaps", VDict kw)])])) = Ok r ->
-   exists cm, mk cls_CenteredInstanceConfMapsConfig kw = Ok cm /\
-     r = VObj "HeadConfig" [("single_instance", VNone); ("centroid", VNone);
-                            ("centered_instance", VObj "CenteredInstanceConfig" [("confmaps", cm)]);
-                            ("bottomup", VNone)]) /\
-  (get_head_configs (head_arg (VDict [("bottomup", VDict [("confmaps", VDict kw); ("pafs", VDict kw2)])])) = Ok r ->
-   exists cm pf, mk cls_BottomUpConfMapsConfig kw = Ok cm /\ mk cls_PAFConfig kw2 = Ok pf /\
-     r = VObj "HeadConfig" [("single_instance", VNone); ("centroid", VNone); ("centered_instance", VNone);
-                            ("bottomup", VObj "BottomUpConfig" [("confmaps", cm); ("pafs", pf)])]).
-Proof.
-  intros kw kw2 r. split; [|split; [|split]]; intro H; unfold get_head_configs in H; cbv zeta in H;
-    repeat xstep H; repeat eexists; try eassumption.
-Qed.
-Print Assumptions head_dict.
-
-Theorem lr_scheduler_dict : forall kw r,
-  (get_trainer_config (trainer_arg (VDict [("step_lr", VDict kw)])) = Ok r ->
-   exists o, mk cls_StepLRConfig kw = Ok o /\
-     get ["lr_scheduler"] r = Some (VObj "LRSchedulerConfig" [("step_lr", o); ("reduce_lr_on_plateau", VNone)])) /\
-  (get_trainer_config (trainer_arg (VDict [("reduce_lr_on_plateau", VDict kw)])) = Ok r ->
-   exists o, mk cls_ReduceLROnPlateauConfig kw = Ok o /\
-     get ["lr_scheduler"] r = Some (VObj "LRSchedulerConfig" [("step_lr", VNone); ("reduce_lr_on_plateau", o)])).
-Proof.
-  intros kw r. split; intro H; unfold get_trainer_config in H; cbv zeta in H;
-    repeat xstep H; eexists; split; try eassumption; reflexivity.
-Qed.
-Print Assumptions lr_scheduler_dict.
-
-(* ====================================================================== (e) *)
-(* validators *)
-
-Lemma qle_true : forall a b, qle a b = true <-> (a <= b)%Q.
-Proof. intros. unfold qle. apply Qle_bool_iff. Qed.
-Print Assumptions qle_true.
-Lemma qle_false : forall a b, qle a b = false <-> (b < a)%Q.
-Proof.
-  intros. unfold qle. split.
-  - intro H. apply Qnot_le_lt. intro L. apply Qle_bool_iff in L. congruence.
-  - intro H. destruct (Qle_bool a b) eqn:E; [|reflexivity]. apply Qle_bool_iff in E.
-    exfalso. apply (Qlt_not_le _ _ H E).
-Qed.
-Print Assumptions qle_false.
-Lemma qlt_true : forall a b, qlt a b = true <-> (a < b)%Q.
-Proof. intros. unfold qlt. rewrite negb_true_iff. apply (qle_false b a). Qed.
-Print Assumptions qlt_true.
-Lemma qlt_false : forall a b, qlt a b = false <-> (b <= a)%Q.
-Proof. intros. unfold qlt. rewrite negb_false_iff. apply (qle_true b a). Qed.
-Print Assumptions qlt_false.
-
-(* v is a real number in [0, 1] (Python: int, float or bool) *)
-Definition in_unit (v : cfg) : Prop := exists q, num_of v = Some q /\ (0 <= q)%Q /\ (q <= 1)%Q.
-
-Ltac cmp_cases :=
-  repeat match goal with
-         | |- context [qle ?a ?b] =>
-             let E := fresh "E" in destruct (qle a b) eqn:E;
-             [apply qle_true in E | apply qle_false in E]
-         | |- context [qlt ?a ?b] =>
-             let E := fresh "E" in destruct (qlt a b) eqn:E;
-             [apply qlt_true in E | apply qlt_false in E]
-         end.
-
-Ltac unit_numeric q :=
-  cmp_cases; simpl;
-  (split; [ intro; first [discriminate | exists q; split; [reflexivity | split; lra]]
-          | intros [q' [Eq [L1 L2]]]; simpl in Eq; injection Eq as <-; first [reflexivity | exfalso; lra] ]).
-
-Ltac not_numeric := simpl; split; [discriminate | intros [q' [Eq _]]; discriminate Eq].
-
-Theorem validate_proportion_spec : forall i a v, is_ok (validate_proportion i a v) = true <-> in_unit v.
-Proof.
-  intros i a v. unfold in_unit.
-  unfold validate_proportion, py_le, py_cmp.
-  destruct v as [| |b|z|q|s|l|l|kv|c kv]; try not_numeric.
-  - destruct b; cbn.
-    + split; [intros _|reflexivity]. exists 1%Q. split; [reflexivity|]. split; lra.
-    + split; [intros _|reflexivity]. exists 0%Q. split; [reflexivity|]. split; lra.
-  - cbv [py_and bind num_of negb is_ok]. unit_numeric (inject_Z z).
-  - cbv [py_and bind num_of negb is_ok]. unit_numeric q.
-Qed.
-Print Assumptions validate_proportion_spec.
-
-Definition PROB_FIELDS : list (string * string) :=
-  [("IntensityConfig", "uniform_noise_p"); ("IntensityConfig", "gaussian_noise_p");
-   ("IntensityConfig", "contrast_p"); ("IntensityConfig", "brightness_p");
-   ("GeometricConfig", "affine_p"); ("GeometricConfig", "erase_p"); ("GeometricConfig", "mixup_p")].
-
-(* the validator of every probability option accepts exactly the numbers in [0,1] *)
-Theorem probability_validators : forall cn fn, In (cn, fn) PROB_FIELDS ->
-  exists c f, find_class classes cn = Some c /\ find_field c fn = Some f /\
-              forall inst v, f_validator f inst v = Ok tt <-> in_unit v.
-Proof.
-  intros cn fn I. simpl in I.
-  repeat (destruct I as [I|I];
-          [ injection I as <- <-; eexists; eexists; split; [reflexivity | split; [reflexivity|]];
-            intros inst v; cbn [f_validator];
-            match goal with |- bind (validate_proportion ?i ?a v) _ = _ <-> _ =>
-              rewrite <- (validate_proportion_spec i a v); destruct (validate_proportion i a v) end;
-            simpl; split; congruence
-          |]).
-  contradiction.
-Qed.
-Print Assumptions probability_validators.
-
-(* ... so the constructors reject out-of-range probabilities *)
-Theorem probabilities_out_of_range_rejected : forall cn fn c kw r v,
-  In (cn, fn) PROB_FIELDS -> find_class classes cn = Some c ->
-  mk c kw = Ok r -> lookup fn kw = Some v -> in_unit v.
-Proof.
-  intros cn fn c kw r v I C M L.
-  destruct (probability_validators cn fn I) as [c' [f [C' [F V]]]].
-  rewrite C in C'. injection C' as <-. apply (V r v). eapply mk_validates; eassumption.
-Qed.
-Print Assumptions probabilities_out_of_range_rejected.
-
-(* --- scale ---------------------------------------------------------------- *)
-
-Definition nonneg_float (x : cfg) : Prop := exists q, x = VFloat q /\ (0 <= q)%Q.
-(* "a float >= 0 or a list of floats >= 0" *)
-Definition scale_ok (v : cfg) : Prop :=
-  nonneg_float v \/ exists l, v = VList l /\ Forall nonneg_float l.
-
-Definition scale_elem (x : cfg) : res bool := py_and (Ok (py_is_float x)) (fun _ => py_ge x (VInt 0)).
-
-Lemma scale_elem_spec : forall x, scale_elem x = Ok true <-> nonneg_float x.
-Proof.
-  intro x. unfold nonneg_float, scale_elem, py_ge, py_cmp.
-  destruct x as [| |b|z|q|s|l|l|kv|c kv];
-    try (simpl; split; [discriminate | intros [q' [Eq _]]; discriminate Eq]).
-  cbv [py_and bind num_of py_is_float inject_Z]. cmp_cases; simpl.
-  - split; [intros _; exists q; split; [reflexivity|exact E] | reflexivity].
-  - split; [discriminate | intros [q' [Eq L]]; injection Eq as <-; exfalso; lra].
-Qed.
-Print Assumptions scale_elem_spec.
-
-Theorem scale_validator_spec : forall inst v, py_getattr inst "scale" = Ok v ->
-  (is_ok (PreprocessingConfig__validate_scale inst) = true <-> scale_ok v).
-Proof.
-  intros inst v G. unfold PreprocessingConfig__validate_scale. rewrite !G. cbn [bind].
-  unfold scale_ok.
-  destruct v as [| |b|z|q|s|l|l|kv|c kv];
-    try (cbn; split; [discriminate | intros [[q' [Eq _]]|[l' [Eq _]]]; discriminate Eq]).
-  - (* float *)
-    change (py_and (Ok (py_is_float (VFloat q))) (fun _ => py_ge (VFloat q) (VInt 0))) with (scale_elem (VFloat q)).
-    destruct (scale_elem (VFloat q)) as [[|]|e] eqn:E.
-    + simpl. split; [intros _; left; apply scale_elem_spec; exact E | reflexivity].
-    + cbn. split; [discriminate|]. intros [N|[l' [Eq _]]]; [|discriminate Eq].
-      apply scale_elem_spec in N. congruence.
-    + cbn. split; [discriminate|]. intros [N|[l' [Eq _]]]; [|discriminate Eq].
-      apply scale_elem_spec in N. congruence.
-  - (* list *)
-    change (fun v_x : cfg => py_and (Ok (py_is_float v_x)) (fun _ : unit => py_ge v_x (VInt 0))) with scale_elem.
-    cbn [py_is_float py_is_list py_and bind py_all].
-    destruct (all_res scale_elem l) as [[|]|e] eqn:A; cbn.
-    + split; [intros _|reflexivity]. right. exists l. split; [reflexivity|].
-      apply all_res_true in A. eapply Forall_impl; [|exact A]. intros x Hx. apply scale_elem_spec. exact Hx.
-    + split; [discriminate|]. intros [[q' [Eq _]]|[l' [Eq F]]]; [discriminate Eq|]. injection Eq as <-.
-      assert (all_res scale_elem l = Ok true) as T.
-      { apply all_res_true. eapply Forall_impl; [|exact F]. intros x Hx. apply scale_elem_spec. exact Hx. }
-      congruence.
-    + split; [discriminate|]. intros [[q' [Eq _]]|[l' [Eq F]]]; [discriminate Eq|]. injection Eq as <-.
-      assert (all_res scale_elem l = Ok true) as T.
-      { apply all_res_true. eapply Forall_impl; [|exact F]. intros x Hx. apply scale_elem_spec. exact Hx. }
-      congruence.
-Qed.
-Print Assumptions scale_validator_spec.
-
-(* ... so the constructor rejects invalid scales *)
-Theorem invalid_scale_rejected : forall kw r v,
-  mk cls_PreprocessingConfig kw = Ok r -> lookup "scale" kw = Some v -> scale_ok v.
-Proof.
-  intros kw r v M L.
-  assert (exists f, find_field cls_PreprocessingConfig "scale" = Some f /\
-                    forall inst x, f_validator f inst x = Ok tt -> is_ok (PreprocessingConfig__validate_scale inst) = true)
-    as [f [F V]].
-  { eexists. split; [reflexivity|]. intros inst x. cbn [f_validator].
-    destruct (PreprocessingConfig__validate_scale inst); simpl; [reflexivity|discriminate]. }
-  pose proof (mk_validates _ _ _ _ _ _ M F L) as H. apply V in H.
-  apply (scale_validator_spec r v); [|exact H].
-  pose proof (mk_reflects_kwargs _ _ _ _ _ M L) as G.
-  destruct (mk_complete _ _ _ M) as [kv [R _]]. subst r. simpl in G. simpl.
-  destruct (lookup "scale" kv); [injection G as <-; reflexivity | discriminate].
-Qed.
-Print Assumptions invalid_scale_rejected.
-
-(* --- backbone sizes --------------------------------------------------------- *)
-
-Definition SWINT_SIZES := ["tiny"; "small"; "base"].
-Definition CONVNEXT_SIZES := ["tiny"; "small"; "base"; "large"].
-Definition SWINT_CLASSES := [cls_SwinTConfig; cls_SwinTSmallConfig; cls_SwinTBaseConfig].
-Definition CONVNEXT_CLASSES := [cls_ConvNextConfig; cls_ConvNextSmallConfig; cls_ConvNextBaseConfig; cls_ConvNextLargeConfig].
-
-Definition known_size (sizes : list string) (v : cfg) : Prop := exists s, v = VStr s /\ In s sizes.
-
-(* class c rejects every model_type outside `sizes` (for ALL values v) *)
-Definition rejects_unknown_sizes (sizes : list string) (c : class_def) : Prop :=
-  forall kw r v, mk c kw = Ok r -> lookup "model_type" kw = Some v -> known_size sizes v.
-
-Lemma existsb_strs_spec : forall x sizes, existsb (cfg_eqb x) (map VStr sizes) = true <-> known_size sizes x.
-Proof.
-  intros x sizes. unfold known_size. rewrite existsb_exists. split.
-  - intros [y [I E]]. apply in_map_iff in I. destruct I as [s [<- I]].
-    apply cfg_eqb_eq in E. exists s. split; assumption.
-  - intros [s [-> I]]. exists (VStr s). split; [apply in_map; exact I | simpl; apply String.eqb_refl].
-Qed.
-Print Assumptions existsb_strs_spec.
-
-(* the model_type validator of class c, as attached in the generated schema,
-   accepts only `sizes` *)
-Ltac size_validator sizes :=
-  eexists; split; [reflexivity|]; intros inst x; cbn [f_validator];
-  lazymatch goal with
-  | |- bind (?m inst x) _ = Ok tt -> _ => unfold m; cbn [py_contains bind]
-  end;
-  lazymatch goal with
-  | |- context [py_in_strs x ?L] =>
-      unfold known_size; rewrite <- (py_in_strs_spec x sizes);
-      destruct (py_in_strs x L) eqn:E; simpl; (let Hx := fresh "Hx" in intro Hx; first [reflexivity | discriminate Hx])
-  | |- context [existsb (cfg_eqb x) ?L] =>
-      change L with (map VStr sizes); rewrite <- (existsb_strs_spec x sizes);
-      destruct (existsb (cfg_eqb x) (map VStr sizes)) eqn:E; simpl; (let Hx := fresh "Hx" in intro Hx; first [reflexivity | discriminate Hx])
-  end.
-
-Ltac rejects_sizes sizes :=
-  intros kw r v M L;
-  lazymatch type of M with
-  | mk ?c _ = _ =>
-      assert (exists f, find_field c "model_type" = Some f /\
-                        forall inst x, f_validator f inst x = Ok tt -> known_size sizes x) as [f [F V]]
-        by (size_validator sizes);
-      exact (V r v (mk_validates _ _ _ _ _ _ M F L))
-  end.
-
-Theorem swint_sizes_validated : Forall (rejects_unknown_sizes SWINT_SIZES) SWINT_CLASSES.
-Proof. unfold SWINT_CLASSES. repeat (apply Forall_cons; [rejects_sizes SWINT_SIZES|]). apply Forall_nil. Qed.
-Print Assumptions swint_sizes_validated.
-
-(* status of F16: do the ConvNeXt classes reject the unknown size "huge"? *)
-Definition convnext_sizes_validated_b : bool :=
-  forallb (fun c => negb (is_ok (mk c [("model_type", VStr "huge")]))) CONVNEXT_CLASSES.
-
-Theorem convnext_sizes_full : convnext_sizes_validated_b = true ->
-  Forall (rejects_unknown_sizes CONVNEXT_SIZES) CONVNEXT_CLASSES.
-Proof.
-  intro B.
-  first [ exfalso; vm_compute in B; discriminate B
-        | unfold CONVNEXT_CLASSES; repeat (apply Forall_cons; [rejects_sizes CONVNEXT_SIZES|]); apply Forall_nil ].
-Qed.
-Print Assumptions convnext_sizes_full.
-
-Definition convnext_cex : class_def :=
-  match find (fun c => is_ok (mk c [("model_type", VStr "huge")])) CONVNEXT_CLASSES with
-  | Some c => c
-  | None => cls_ConvNextConfig
-  end.
-
-Theorem convnext_sizes_refuted : convnext_sizes_validated_b = false ->
-  exists c, In c CONVNEXT_CLASSES /\ ~ rejects_unknown_sizes CONVNEXT_SIZES c.
-Proof.
-  intro B.
-  first [ exfalso; vm_compute in B; discriminate B
-        | exists convnext_cex; split;
-          [ vm_compute; tauto
-          | intro R;
-            assert (exists r, mk convnext_cex [("model_type", VStr "huge")] = Ok r) as [r M]
-              by (vm_compute; eexists; reflexivity);
-            destruct (R _ r (VStr "huge") M eq_refl) as [s [E I]]; injection E as <-;
-            simpl in I; repeat (destruct I as [I|I]; [discriminate I|]); contradiction ] ].
-Qed.
-Print Assumptions convnext_sizes_refuted.
-
-(* --- oneof -------------------------------------------------------------------- *)
-
-(* more than one backbone, or more than one head type, at once is rejected, for
-   ALL keyword arguments *)
-Theorem backbone_and_head_reject_two : forall c, In c [cls_BackboneConfig; cls_HeadConfig] ->
-  forall kw f1 f2 v1 v2,
-  In f1 (c_fields c) -> In f2 (c_fields c) -> f_name f1 <> f_name f2 ->
-  lookup (f_name f1) kw = Some v1 -> lookup (f_name f2) kw = Some v2 -> v1 <> VNone -> v2 <> VNone ->
-  is_ok (mk c kw) = false.
-Proof.
-  intros c I kw f1 f2 v1 v2. apply mk_oneof_rejects_two. simpl in I. destruct I as [<-|[<-|[]]]; reflexivity.
-Qed.
-Print Assumptions backbone_and_head_reject_two.
-
-(* --- F13: the documented presets must reach the training configuration -------- *)
-
-Definition model_arg (b h : cfg) : string -> cfg :=
-  env_of [("backbone_config", b); ("head_configs", h)] get_model_config_defaults.
-Definition preset_converts (p : string) : res cfg :=
-  bind (get_model_config (model_arg (VStr p) (VStr "centroid"))) (to_sleap_nn_cfg classes "ModelConfig").
-Definition presets_convert_b : bool := forallb (fun e => is_ok (preset_converts (fst e))) PRESETS.
-
-Theorem presets_convert_full : presets_convert_b = true ->
-  forall e, In e PRESETS -> exists c, preset_converts (fst e) = Ok c.
-Proof.
-  intros B e I. unfold presets_convert_b in B. rewrite forallb_forall in B. specialize (B e I).
-  destruct (preset_converts (fst e)) as [c|]; [exists c; reflexivity | discriminate B].
-Qed.
-Print Assumptions presets_convert_full.
-
-Definition preset_cex : string :=
-  match find (fun e => negb (is_ok (preset_converts (fst e)))) PRESETS with
-  | Some e => fst e
-  | None => ""
-  end.
-
-Theorem presets_convert_refuted : presets_convert_b = false ->
-  exists p mc, In p (map fst PRESETS) /\
-    get_model_config (model_arg (VStr p) (VStr "centroid")) = Ok mc /\
-    to_sleap_nn_cfg classes "ModelConfig" mc = Err ValidationError.
-Proof.
-  intro B.
-  first [ exfalso; vm_compute in B; discriminate B
-        | exists preset_cex;
-          assert (exists mc, get_model_config (model_arg (VStr preset_cex) (VStr "centroid")) = Ok mc /\
-                             to_sleap_nn_cfg classes "ModelConfig" mc = Err ValidationError) as [mc [G T]]
-            by (vm_compute; eexists; split; reflexivity);
-          exists mc; split; [vm_compute; tauto | split; assumption] ].
-Qed.
-Print Assumptions presets_convert_refuted.
-
-(* unconditional part: the presets whose class is the declared field type convert *)
-Theorem presets_convert_partial :
-  forallb (fun p => is_ok (preset_converts p)) ["unet"; "convnext"; "convnext_tiny"; "swint"; "swint_tiny"] = true.
-Proof. vm_compute. reflexivity. Qed.
-Print Assumptions presets_convert_partial.
-
-(* ================================================================ (d) on built *)
-
-Lemma verify_schema_wf : swf verify_schema = true.
-Proof. vm_compute. reflexivity. Qed.
-Print Assumptions verify_schema_wf.
-
-(* normalisation changes no value of, and is idempotent on, EVERY configuration
-   that TrainingJobConfig(...).to_sleap_nn_cfg() produces, whatever the three
-   sections are *)
-Theorem normalise_identity_on_built : forall dc mc tc job c,
-  job_of dc mc tc = Ok job -> to_sleap_nn_cfg classes "TrainingJobConfig" job = Ok c ->
-  verify_training_cfg c = Ok c.
-Proof.
-  intros dc mc tc job c J T. unfold job_of in J.
-  destruct (mk_complete _ _ _ J) as [kv [-> K]].
-  unfold to_sleap_nn_cfg in T. apply bind_ok in T. destruct T as [c0 [T M]].
-  destruct (has_missing c0) eqn:HM; [discriminate|]. injection M as <-.
-  apply to_cfg_obj_keys in T. destruct T as [kv' [-> K']].
-  unfold verify_training_cfg. rewrite K', K.
-  replace (forallb (fun k => mem_str k (field_names cls_TrainingJobConfig)) (field_names cls_TrainingJobConfig))
-    with true by (vm_compute; reflexivity).
-  apply normalise_identity_on_complete; [exact verify_schema_wf | | exact HM].
-  unfold verify_schema. apply complete_all_leaves.
-  - rewrite K', K. unfold field_names. rewrite map_map. reflexivity.
-  - apply Forall_forall. intros e I. apply in_map_iff in I. destruct I as [f [<- _]]. eexists. reflexivity.
-Qed.
-Print Assumptions normalise_identity_on_built.
-
-Theorem normalise_idempotent_on_any : forall c c',
-  verify_training_cfg c = Ok c' -> verify_training_cfg c' = Ok c'.
-Proof.
-  intros c c' V. unfold verify_training_cfg in *. destruct c; try discriminate.
-  destruct (forallb _ _) eqn:F; [|discriminate].
-  pose proof V as V0. unfold normalise in V. apply bind_ok in V. destruct V as [c1 [M N]].
-  destruct (has_missing c1); [discriminate|]. injection N as <-.
-  pose proof (merge_result_complete _ verify_schema_wf _ _ M) as C.
-  unfold verify_schema in M. simpl in M.
-  destruct (negb _) in M; [discriminate|]. apply bind_ok in M. destruct M as [kv' [_ E]]. injection E as <-.
-  unfold verify_schema in C. rewrite complete_node in C. apply complete_fields_keys in C.
-  assert (forallb (fun k => mem_str k (field_names cls_TrainingJobConfig)) (map fst kv') = true) as F'.
-  { rewrite C, map_map. apply forallb_forall. intros k I. apply mem_str_In. exact I. }
-  rewrite F'. eapply normalise_idempotent; [exact verify_schema_wf | exact V0].
-Qed.
-Print Assumptions normalise_idempotent_on_any.
-
-(* every class can be default-constructed and gives the declared defaults
-   (so `default_obj`, used as "the schema default" above, is what `Cls()` returns) *)
-Theorem defaults_constructible :
-  forallb (fun c => match mk c [] with Ok r => cfg_eqb r (default_obj c) | Err _ => false end) classes = true.
-Proof. vm_compute. reflexivity. Qed.
-Print Assumptions defaults_constructible.
+(* PerRun.v (C20) — the per-run obligations about the REGENERATED functions live in
+   PerRunAug.v (clause c), PerRunPass.v (a, b), PerRunInterp.v / PerRunSched.v (interpreted parameters),
+   PerRunVal.v (e, d, F13); they share PerRunBase.v and are compiled in parallel by the
+   check.  This file only re-exports them (the harness evaluates the status booleans
+   through it). *)
+From SV Require Export C20.PerRunBase C20.PerRunAug C20.PerRunPass C20.PerRunInterp C20.PerRunSched C20.PerRunVal.
